@@ -134,6 +134,7 @@ Section Soundness.
   Hypothesis fmt_no_crash : forall n f, fmt_name n f <> Crash.
   Variable G : list (str * obj).
   Variable ent : bool.
+  Variable tys : list str.
   Hypothesis HG : ctx_ok G = true.
 
   Notation exec := (exec fmt_name cw).
@@ -141,7 +142,7 @@ Section Soundness.
   Notation step := (step fmt_name cw).
   Notation exec_obj := (exec_obj fmt_name cw).
   Notation builtin_step := (builtin_step fmt_name cw).
-  Notation check := (check G ent).
+  Notation check := (check G ent tys).
 
   Definition same_kind (o o' : obj) : Prop :=
     match o with
@@ -159,7 +160,7 @@ Section Soundness.
                   (forall n, alookup str_eqb n G = Some (OEInt name) -> exists z, v = VInt z) /\
                   (forall n, alookup str_eqb n G = Some (OEStr name) -> strlike v = true);
     ok_buf : Forall (fun v => strlike v = true) (st_buf st);
-    ok_ent : ent = true -> (exists key e, st_cur st = Some (key, e)) /\ (exists d, st_db st = Some d)
+    ok_ent : ent = true -> (exists key e, st_cur st = Some (key, e) /\ In (e_type e) tys) /\ (exists d, st_db st = Some d)
   }.
 
   Definition post (s : list aval) (st : state) : Prop := state_ok st /\ sabs (st_stack st) s.
@@ -231,6 +232,8 @@ Section Soundness.
     | ARef n => check f s [IId n]
     | _ => None
     end.
+
+  Definition cidc (f : nat) (s : list aval) (n : str) : option (list aval) := check f s [IId n].
 
   Definition IHf (f : nat) : Prop :=
     forall s p s', check f s p = Some s' ->
@@ -304,7 +307,7 @@ Section Soundness.
   Qed.
 
   Lemma builtin_typed f m b s s1 st : IHf f ->
-    check_builtin G ent (callc f) b s = Some s1 ->
+    check_builtin G ent tys (callc f) (cidc f) b s = Some s1 ->
     state_ok st -> sabs (st_stack st) s ->
     safe (builtin_step (exec m) (while_loop m) b st) (post s1).
   Proof.
@@ -345,14 +348,14 @@ Section Soundness.
         split; [|cbn; assumption].
         apply (ok_assign_global (set_stack st l2) nm (OStr vv) (OStr v2));
           [apply ok_set_stack; exact Hok|exact EG|cbn; eauto].
-      + subst o'. cond C. as_int V2 H0. destruct (ok_ent st Hok H) as [(key & e & Ec) _].
+      + subst o'. cond C. as_int V2 H0. destruct (ok_ent st Hok H) as [(key & e & Ec & Ety) _].
         change (st_cur (set_stack st l2)) with (st_cur st). rewrite Ec. cbn.
         split; [|cbn; assumption].
         apply (ok_assign_entry (set_stack st l2) key en (VInt z) nm);
           [apply ok_set_stack; exact Hok|left; eauto].
       + subst o'. cond C. pose proof (vabs_str _ _ V2 H0) as S2.
         destruct (strlike_as_str _ S2) as [t Et]. rewrite Et.
-        destruct (ok_ent st Hok H) as [(key & e & Ec) _].
+        destruct (ok_ent st Hok H) as [(key & e & Ec & Ety) _].
         change (st_cur (set_stack st l2)) with (st_cur st). rewrite Ec. cbn.
         split; [|cbn; assumption].
         apply (ok_assign_entry (set_stack st l2) key en v2 nm);
@@ -368,7 +371,25 @@ Section Soundness.
     cbn [Bst.builtin_step]; rewrite (pop_cons _ _ _ E1); cbn [bind]. cond C. as_str V1 B v1; cbn.
       + destruct s; [fin|]. destruct (ends_with_terminator _); fin.
       + fin.
-    - (* call.type$ *) discriminate C.
+    - (* call.type$ *) cbn in C. cond C. destruct (ok_ent st Hok H) as [(key & e & Ec & Ety) _].
+      rewrite forallb_forall in H0. specialize (H0 _ Ety).
+      assert (W : map weaken (map weaken s) = map weaken s) by (rewrite map_map; apply map_ext; apply weaken_idem).
+      assert (Hs' : sabs (st_stack st) (map weaken s)) by (apply sabs_weaken; exact Hs).
+      cbn [Bst.builtin_step]. rewrite Ec. unfold vlookup in *.
+      pose proof (ok_vars st Hok (lower (e_type e))) as V1.
+      destruct (alookup str_eqb (lower (e_type e)) G) as [o|] eqn:EG.
+      + destruct V1 as (o' & Eo & _). rewrite Eo.
+        unfold branch_ok, cidc in H0. destruct (check f (map weaken s) [IId (e_type e)]) as [s2|] eqn:Ck; [|discriminate H0].
+        eapply safe_weaken; [exact (IH _ _ _ Ck m st Hok Hs')|].
+        intros st' [P1 P2]. split; [exact P1|]. rewrite <- W. eapply sabs_eqb; eauto.
+      + rewrite V1. change (st_vars (add_warn st [WType])) with (st_vars st).
+        pose proof (ok_vars st Hok (lower nm_default_type)) as V2.
+        destruct (alookup str_eqb (lower nm_default_type) G) as [o|] eqn:ED.
+        * destruct V2 as (o' & Eo & _). rewrite Eo.
+          unfold branch_ok, cidc in H0. destruct (check f (map weaken s) [IId nm_default_type]) as [s2|] eqn:Ck; [|discriminate H0].
+          eapply safe_weaken; [exact (IH _ _ _ Ck m (add_warn st [WType]) (ok_add_warn _ _ Hok) Hs')|].
+          intros st' [P1 P2]. split; [exact P1|]. rewrite <- W. eapply sabs_eqb; eauto.
+        * rewrite V2. split; [apply ok_add_warn; exact Hok|exact Hs'].
     - (* change.case$ *) destruct s as [|x [|y r]]; cbn in C; try discriminate C;
     pop1 Hs v1 l1 E1 V1 Hs1; pop1 Hs1 v2 l2 E2 V2 Hs2; subst l1;
     cbn [Bst.builtin_step]; rewrite (pop_cons _ _ _ E1); cbn [bind]; rewrite pop_set_stack; cbn [bind]. cond C. as_str V1 H v1; cbn.
@@ -381,7 +402,7 @@ Section Soundness.
     cbn [Bst.builtin_step]; rewrite (pop_cons _ _ _ E1); cbn [bind]. cond C. as_str V1 B v1; cbn.
       + destruct s as [|c [|c2 s]]; cbn; fin.
       + exact I.
-    - (* cite$ *) cbn in C. cond C. destruct (ok_ent st Hok B) as [(key & e & Ec) _].
+    - (* cite$ *) cbn in C. cond C. destruct (ok_ent st Hok B) as [(key & e & Ec & Ety) _].
       cbn. rewrite Ec. fin.
     - (* duplicate$ *) destruct s as [|x r]; cbn in C; try discriminate C;
     pop1 Hs v1 l1 E1 V1 Hs1;
@@ -448,7 +469,14 @@ Section Soundness.
     cbn [Bst.builtin_step]; rewrite (pop_cons _ _ _ E1); cbn [bind]; rewrite pop_set_stack; cbn [bind];
     rewrite pop_set_stack; cbn [bind]. cond C. as_int V1 H. as_int V2 H1.
       destruct z0; [cbn; fin| |]; as_str V3 H0 v3; cbn; fin.
-    - (* stack$ *) discriminate C.
+    - (* stack$ *) cbn in C. cond C. cbn [Bst.builtin_step].
+      assert (J : exists t, print_all (st_stack st) = Ok t).
+      { clear Hok. revert B. generalize (st_stack st) Hs. clear Hs. intros l Hl. induction Hl as [|v a l s' Hv _ IHl]; cbn; intros B; [eauto|].
+        apply andb_prop in B as [B1 B2]. destruct (IHl B2) as [t Et]. rewrite Et.
+        apply orb_prop in B1 as [B1|B1].
+        - destruct (vabs_int _ _ Hv B1) as [z ->]. cbn. eauto.
+        - pose proof (vabs_str _ _ Hv B1) as Sv. destruct v; try discriminate Sv; cbn; eauto. }
+      destruct J as [t ->]. cbn. split; [apply ok_add_print; apply ok_set_stack; exact Hok|constructor].
     - (* swap$ *) destruct s as [|x [|y r]]; cbn in C; try discriminate C;
     pop1 Hs v1 l1 E1 V1 Hs1; pop1 Hs1 v2 l2 E2 V2 Hs2; subst l1;
     cbn [Bst.builtin_step]; rewrite (pop_cons _ _ _ E1); cbn [bind]; rewrite pop_set_stack; cbn [bind]. inversion C; subst. cbn.
@@ -465,7 +493,7 @@ Section Soundness.
     cbn [Bst.builtin_step]; rewrite (pop_cons _ _ _ E1); cbn [bind]. cond C. apply orb_prop in B as [B|B].
       + as_int V1 B. cbn. split; [apply ok_add_print; apply ok_set_stack; exact Hok|cbn; assumption].
       + as_str V1 B v1; cbn; (split; [apply ok_add_print; apply ok_set_stack; exact Hok|cbn; assumption]).
-    - (* type$ *) cbn in C. cond C. destruct (ok_ent st Hok B) as [(key & e & Ec) _].
+    - (* type$ *) cbn in C. cond C. destruct (ok_ent st Hok B) as [(key & e & Ec & Ety) _].
       cbn. rewrite Ec. fin.
     - (* warning$ *) destruct s as [|x r]; cbn in C; try discriminate C;
     pop1 Hs v1 l1 E1 V1 Hs1;
@@ -510,7 +538,7 @@ Section Soundness.
       | Some (OStr _) => Some (AStr :: s)
       | Some (OEInt _) => if ent then Some (AInt :: s) else None
       | Some (OEStr _) | Some (OField _) | Some OCrossref => if ent then Some (AStr :: s) else None
-      | Some (OBuiltin b) => check_builtin G ent (callc f) b s
+      | Some (OBuiltin b) => check_builtin G ent tys (callc f) (cidc f) b s
       | None => None
       end
     end.
@@ -534,21 +562,21 @@ Section Soundness.
       + destruct K as [z ->]. inversion C; subst. cbn. apply post_push; [assumption|assumption|constructor].
       + destruct K as (v0 & -> & Sv). inversion C; subst. cbn. apply post_push; [assumption|assumption|constructor; exact Sv].
       + subst o'. destruct ent eqn:Ee; [|discriminate C]. inversion C; subst.
-        destruct (ok_ent st Hok Ee) as [(key & e & Ec) _]. cbn. rewrite Ec.
+        destruct (ok_ent st Hok Ee) as [(key & e & Ec & Ety) _]. cbn. rewrite Ec.
         apply post_push; [assumption|assumption|].
         destruct (alookup str_eqb en (frame st key)) as [v|] eqn:Ef; [|constructor].
         destruct (proj1 (ok_frames st Hok key en v Ef) _ EG) as [z ->]. constructor.
       + subst o'. destruct ent eqn:Ee; [|discriminate C]. inversion C; subst.
-        destruct (ok_ent st Hok Ee) as [(key & e & Ec) _]. cbn. rewrite Ec.
+        destruct (ok_ent st Hok Ee) as [(key & e & Ec & Ety) _]. cbn. rewrite Ec.
         apply post_push; [assumption|assumption|].
         destruct (alookup str_eqb en (frame st key)) as [v|] eqn:Ef; [|constructor; reflexivity].
         constructor. exact (proj2 (ok_frames st Hok key en v Ef) _ EG).
       + subst o'. destruct ent eqn:Ee; [|discriminate C]. inversion C; subst.
-        destruct (ok_ent st Hok Ee) as [(key & e & Ec) (d & Ed)]. cbn. rewrite Ec, Ed.
+        destruct (ok_ent st Hok Ee) as [(key & e & Ec & Ety) (d & Ed)]. cbn. rewrite Ec, Ed.
         apply post_push; [assumption|assumption|].
         destruct (alookup str_eqb (lower fn) (e_fields e)); constructor; reflexivity.
       + subst o'. destruct ent eqn:Ee; [|discriminate C]. inversion C; subst.
-        destruct (ok_ent st Hok Ee) as [(key & e & Ec) _]. cbn. rewrite Ec.
+        destruct (ok_ent st Hok Ee) as [(key & e & Ec & Ety) _]. cbn. rewrite Ec.
         apply post_push; [assumption|assumption|].
         destruct (e_crossref e); constructor; reflexivity.
       + subst o'. cbn [Bst.exec_obj]. eapply IH; eauto.
@@ -578,23 +606,23 @@ End Soundness.
 
 (* the theorem, closed: a checked program run from a well-formed state never raises a foreign exception,
    and when it ends normally the stack has the computed shape and the state is still well-formed *)
-Theorem welltyped_no_crash fmt_name cw G ent cf s p s' :
+Theorem welltyped_no_crash fmt_name cw G ent tys cf s p s' :
   (forall n f, fmt_name n f <> Crash) -> ctx_ok G = true ->
-  check G ent cf s p = Some s' ->
-  forall n st, state_ok G ent st -> sabs (st_stack st) s ->
+  check G ent tys cf s p = Some s' ->
+  forall n st, state_ok G ent tys st -> sabs (st_stack st) s ->
   exec fmt_name cw n st p <> Crash /\
-  (forall st', exec fmt_name cw n st p = Ok st' -> state_ok G ent st' /\ sabs (st_stack st') s').
+  (forall st', exec fmt_name cw n st p = Ok st' -> state_ok G ent tys st' /\ sabs (st_stack st') s').
 Proof.
   intros Hf HG C n st Hok Hs.
-  pose proof (check_sound fmt_name cw Hf G ent HG cf s p s' C n st Hok Hs) as H.
+  pose proof (check_sound fmt_name cw Hf G ent tys HG cf s p s' C n st Hok Hs) as H.
   unfold safe in H. destruct (exec fmt_name cw n st p); split; try discriminate; try contradiction.
   - intros st' E. inversion E; subst. exact H.
 Qed.
 
 (* a state whose variable table is the (sane) context itself, with no entry frames and an empty
    buffer, is well-formed: this is the state in which EXECUTE runs a function before READ *)
-Lemma state_ok_start G st : ctx_ok G = true -> st_vars st = G -> st_evars st = [] -> st_buf st = [] ->
-  state_ok G false st.
+Lemma state_ok_start G tys st : ctx_ok G = true -> st_vars st = G -> st_evars st = [] -> st_buf st = [] ->
+  state_ok G false tys st.
 Proof.
   intros HG Hv He Hb. constructor.
   - intros n. rewrite Hv. destruct (alookup str_eqb n G) as [o|] eqn:E; [|reflexivity].
